@@ -130,7 +130,8 @@ theorem spliceAt_sources (file : List Line) (c : Nat) (pls : List (Hunk × Nat))
 /-! ### the lines of a patch -/
 
 /-- **`get_line` never hands out a line without newline**: the last line of a patch text whose own final newline went
-    missing is a line like any other (`.lf`); only the `\ No newline at end of file` marker makes a hunk line `.none`
+    missing is a line like any other (`.lf`, or `.crlf` if what is left of its terminator is a CR, D85); only the
+    `\ No newline at end of file` marker makes a hunk line `.none`
     (C13 `none_only_by_marker`) -/
 theorem getLine_never_none (p : Parser) (l : Line) (p' : Parser) (h : p.getLine = (some l, p')) :
     l.newline ≠ .none := by
@@ -141,13 +142,16 @@ theorem getLine_never_none (p : Parser) (l : Line) (p' : Parser) (h : p.getLine 
     simp only [Prod.mk.injEq, Option.some.injEq] at h
     obtain ⟨rfl, _⟩ := h
     split
-    · simp
+    · split <;> simp
     · assumption
 
-/-- what is handed out is the line of the text: same content, same terminator unless there was none -/
-theorem getLine_line (p : Parser) (l : Line) (p' : Parser) (h : p.getLine = (some l, p')) :
-    ∃ l0 r, p.s.rest = l0 :: r ∧ p'.s.rest = r ∧ l.content = l0.content ∧
-      l.newline = (if l0.newline = .none then .lf else l0.newline) := by
+/-- what `get_line` hands out in terms of the line of the text (all three cases): a terminated line as it is; the last line
+    without its newline as an LF line, unless it ends in CR: then as a CR LF line without that CR (D85) -/
+theorem getLine_cases (p : Parser) (l : Line) (p' : Parser) (h : p.getLine = (some l, p')) :
+    ∃ l0 r, p.s.rest = l0 :: r ∧ p'.s.rest = r ∧
+      l = (if l0.newline = .none then
+             (if l0.content.getLast? = some CR then ⟨l0.content.dropLast, .crlf⟩ else ⟨l0.content, .lf⟩)
+           else l0) := by
   unfold Parser.getLine PStream.getLine at h
   split at h <;> rename_i heq
   · simp at h
@@ -165,11 +169,42 @@ theorem getLine_line (p : Parser) (l : Line) (p' : Parser) (h : p.getLine = (som
           split at heq <;>
             (simp only [Prod.mk.injEq, Option.some.injEq] at heq
              obtain ⟨rfl, rfl⟩ := heq
-             refine ⟨rfl, ?_, ?_⟩ <;> split <;> simp_all)
+             exact ⟨rfl, rfl⟩)
 
-/-- the last line of a text that does not end in a newline is read as an LF terminated line, and the stream has seen its end -/
-theorem getLine_last_unterminated (c : Bytes) (n : Nat) :
-    Parser.getLine ⟨⟨[⟨c, .none⟩], false, false⟩, n⟩ = (some ⟨c, .lf⟩, ⟨⟨[], true, false⟩, n + 1⟩) := rfl
+/-- what is handed out is the line of the text: same content, same terminator unless there was none.
+    (`hcr`: not the last line of a text that ends in a bare CR — that one is `getLine_line_cr`) -/
+theorem getLine_line (p : Parser) (l : Line) (p' : Parser) (h : p.getLine = (some l, p'))
+    (hcr : ∀ l0 r, p.s.rest = l0 :: r → l0.newline = .none → l0.content.getLast? ≠ some CR) :
+    ∃ l0 r, p.s.rest = l0 :: r ∧ p'.s.rest = r ∧ l.content = l0.content ∧
+      l.newline = (if l0.newline = .none then .lf else l0.newline) := by
+  obtain ⟨l0, r, hr, hr', hl⟩ := getLine_cases p l p' h
+  refine ⟨l0, r, hr, hr', ?_⟩
+  subst hl
+  by_cases hn : l0.newline = .none
+  · simp [hn, hcr l0 r hr hn]
+  · simp [hn]
+
+/-- NEW (D85): the case `getLine_line` leaves out.  A CR at the very end of the patch text is what is left of a CR LF:
+    the line is handed out as a CR LF line, its content without the CR -/
+theorem getLine_line_cr (p : Parser) (l : Line) (p' : Parser) (h : p.getLine = (some l, p'))
+    (l0 : Line) (r : List Line) (hr : p.s.rest = l0 :: r) (hn : l0.newline = .none) (hc : l0.content.getLast? = some CR) :
+    p'.s.rest = r ∧ l.content = l0.content.dropLast ∧ l.newline = .crlf := by
+  obtain ⟨l1, r1, hr1, hr', hl⟩ := getLine_cases p l p' h
+  rw [hr] at hr1
+  obtain ⟨rfl, rfl⟩ := List.cons.inj hr1
+  subst hl
+  simp [hn, hc, hr']
+
+/-- the last line of a text that does not end in a newline (nor in a bare CR) is read as an LF terminated line, and the stream
+    has seen its end -/
+theorem getLine_last_unterminated (c : Bytes) (n : Nat) (hcr : c.getLast? ≠ some CR) :
+    Parser.getLine ⟨⟨[⟨c, .none⟩], false, false⟩, n⟩ = (some ⟨c, .lf⟩, ⟨⟨[], true, false⟩, n + 1⟩) := by
+  simp [Parser.getLine, PStream.getLine, hcr]
+
+/-- NEW (D85): the last line of a text that ends in a bare CR is read as a CR LF terminated line without the CR -/
+theorem getLine_last_bare_cr (c : Bytes) (n : Nat) :
+    Parser.getLine ⟨⟨[⟨c ++ [CR], .none⟩], false, false⟩, n⟩ = (some ⟨c, .crlf⟩, ⟨⟨[], true, false⟩, n + 1⟩) := by
+  simp [Parser.getLine, PStream.getLine]
 
 /-! ### the `\ No newline at end of file` marker -/
 
